@@ -1,11 +1,14 @@
 """C09: three-valued logic, equality and ordering - finite tables extracted from the HIR (DESIGN §3 C09)."""
 import json
 import os
+import re
+
+import hirflow
 
 from hireval import Evaluator, closure_of, mk_bool, sym, value
 
 LEVEL = "other"
-CRATES_QUICK = ["dmntk_feel_evaluator", "dmntk_feel"]
+CRATES_QUICK = ["dmntk_feel_evaluator", "dmntk_feel", "dmntk_feel_number"]
 CRATES_THOROUGH = None
 B = "dmntk_feel_evaluator::builders::"
 VALUE_ADT = "dmntk_feel::values::Value"
@@ -240,6 +243,12 @@ def run(F, rep, tier):
 
     # ---------------- R09.5
     r5_intervals(F, rep, r5, vs)
+    # ---------------- R09.6
+    temporal_order_rule(F, rep)
+    # ---------------- R09.7
+    collection_equality_rule(F, rep)
+    # ---------------- R09.8
+    number_order_rule(F, rep)
 
 
 def between_form(F, rep, rid, k):
@@ -373,3 +382,174 @@ def r5_intervals(F, rep, rid, vs):
         else:
             rep.violation(rid, "kinds:%s" % nm, "%s handles kinds %s; the seven ordered kinds are %s (missing %s, extra %s)" % (nm, sorted(ks), sorted(ref), sorted(ref - ks), sorted(ks - ref)),
                           "feel-evaluator/src/builders.rs")
+
+
+# ======================================================================================================
+# R09.6: the temporal comparison helpers over the finite set of orderings
+TEMPORAL = "dmntk_feel::temporal::"
+ORD_SPEC = {           # helper -> set of orderings of compare(v1, v2) for which it answers true
+    "equal": {"Equal"}, "before": {"Less"}, "before_or_equal": {"Less", "Equal"}, "after": {"Greater"}, "after_or_equal": {"Greater", "Equal"},
+}
+
+
+def temporal_order_rule(F, rep):
+    """Dates, times and date-times are compared through one function compare(a, b) -> Option<Ordering>; equal / before / after / between only look at its
+    answer. The answer ranges over a finite set {Less, Equal, Greater, None}, so each helper is decided exhaustively: the body is evaluated symbolically
+    for every combination of orderings (and of the two closed/open flags) and compared with the specification. Nothing is executed."""
+    rid = rep.rule("R09.6", "temporal equal/before/after/between answer exactly as the ordering of compare() prescribes, for every combination of orderings and interval flags; the public wrappers pass their operands in order")
+    helpers = {n: TEMPORAL + n for n in list(ORD_SPEC) + ["between", "compare"]}
+    for n, full in helpers.items():
+        if full not in F.hir:
+            rep.missing_anchor(rid, full)
+            return
+    OUT = ("Less", "Equal", "Greater", None)
+
+    def make_hook(assign):
+        def hook(callee, args, st):
+            if callee == helpers["compare"]:
+                o = assign.get((repr(args[0]), repr(args[1])), "?")
+                if o == "?":
+                    return ("unknown", "compare on unexpected operands %r" % (args,))
+                return value("None") if o is None else value("Some", value(o))
+            return None
+        return hook
+    inl = set(helpers.values()) - {helpers["compare"]}
+
+    def run(fn, args, assign):
+        ev = Evaluator(F, call_hook=make_hook(assign), inline=inl)
+        outs = ev.run_fn(fn, args)
+        vals = {repr(v) for _, v in outs}
+        return outs[0][1] if len(vals) == 1 else ("multi", sorted(vals))
+
+    def opt_bool(x):
+        return value("None") if x is None else value("Some", mk_bool(x))
+    n = 0
+    for h, trues in ORD_SPEC.items():
+        bad = []
+        for o in OUT:
+            got = run(helpers[h], [sym("a"), sym("b")], {(repr(sym("a")), repr(sym("b"))): o})
+            want = opt_bool(None if o is None else (o in trues))
+            n += 1
+            if got != want:
+                bad.append("compare = %s: answers %s, expected %s" % (o, show(got), show(want)))
+        if bad:
+            rep.violation(rid, "helper:%s" % h, "temporal %s(v1, v2): %s" % (h, "; ".join(bad)), "feel/src/temporal/mod.rs")
+        else:
+            rep.ok(rid, "helper:%s" % h, "true exactly for %s, None when not comparable" % sorted(trues))
+    for lc in (True, False):
+        for rc in (True, False):
+            bad = []
+            for o1 in OUT:
+                for o2 in OUT:
+                    assign = {(repr(sym("x")), repr(sym("lo"))): o1, (repr(sym("x")), repr(sym("hi"))): o2}
+                    got = run(helpers["between"], [sym("x"), sym("lo"), sym("hi"), mk_bool(lc), mk_bool(rc)], assign)
+                    if o1 is None or o2 is None:
+                        want = opt_bool(None)
+                    else:
+                        want = opt_bool((o1 == "Greater" or (lc and o1 == "Equal")) and (o2 == "Less" or (rc and o2 == "Equal")))
+                    n += 1
+                    if got != want:
+                        bad.append("x vs lo = %s, x vs hi = %s: answers %s, expected %s" % (o1, o2, show(got), show(want)))
+            key = "between:%s%s" % ("[" if lc else "(", "]" if rc else ")")
+            if bad:
+                rep.violation(rid, key, "temporal between(x, lo, hi, %s, %s) i.e. x in %slo..hi%s: %s" % (lc, rc, "[" if lc else "(", "]" if rc else ")", "; ".join(bad[:4])), "feel/src/temporal/mod.rs")
+            else:
+                rep.ok(rid, key, "16 ordering combinations agree with %s x, x %s hi" % ("lo <=" if lc else "lo <", "<=" if rc else "<"))
+    # the public wrappers (FeelDate / FeelTime / FeelDateTime) delegate to the helper of the same name with (self, other[, ...]) in order
+    nw = 0
+    for name, h in sorted(F.hir.items()):
+        m = re.match(r"^dmntk_feel::temporal::(date::FeelDate|FeelTime|FeelDateTime)::(equal|before|before_or_equal|after|after_or_equal|between)$", name)
+        if not m:
+            continue
+        nw += 1
+        meth = m.group(2)
+        fl = hirflow.Flow(h)
+        calls = [(c, a) for c, a, _, _, _ in fl.calls if c in helpers.values()]
+        key = "wrapper:%s::%s" % (m.group(1).split("::")[-1], meth)
+        if len(calls) != 1 or calls[0][0] != helpers[meth]:
+            rep.violation(rid, key, "%s does not delegate to the temporal helper `%s` exactly once (calls: %s)" % (name, meth, [c for c, _ in calls]), "%s:%s" % (h["file"], h["line"]))
+            continue
+        order = []
+        for a in calls[0][1]:
+            idx = sorted(set(int(x) for x in re.findall(r"\('arg', (\d+)\)", repr(a))))
+            order.append(idx)
+        want = [[i] for i in range(len(calls[0][1]))]
+        if order == want:
+            rep.ok(rid, key, "%s(%s)" % (meth, ", ".join("arg%d" % i for i in range(len(want)))))
+        else:
+            rep.violation(rid, key, "%s passes its operands to %s as %s, expected %s (self, other%s in order)" % (name, meth, order, want, ", flags" if meth == "between" else ""),
+                          "%s:%s" % (h["file"], h["line"]))
+    rep.floor(rid, "ordering combinations evaluated", n, 84)
+    rep.floor(rid, "temporal comparison wrappers", nw, 18)
+
+
+def show(v):
+    if v == value("None"):
+        return "None"
+    if isinstance(v, tuple) and v and v[0] == "v" and v[1] == "Some" and v[2] and v[2][0][0] == "bool":
+        return "Some(%s)" % str(v[2][0][1]).lower()
+    return str(v)[:120]
+
+
+def collection_equality_rule(F, rep):
+    """R09.7: `a = b` on lists and contexts is decided element by element from the left operand; it is symmetric only if the two sizes are compared first
+    (otherwise {a:1} = {a:1,b:2} is true and its mirror false). Every path of eval_ternary_equality that answers Some(true) for two lists / two contexts
+    must pass a test that the sizes of the two operands are equal."""
+    rid = rep.rule("R09.7", "equality of two lists / two contexts answers true only on a path that compared the sizes of both operands")
+    name = B + "eval_ternary_equality"
+    h = F.hir.get(name)
+    if h is None:
+        rep.missing_anchor(rid, name)
+        return
+    fl = hirflow.Flow(h)
+    seen = set()
+    for d, cond, line in fl.returns:
+        if d != ("ctor", "core::option::Option::Some", [("lit", True)]):
+            continue
+        kinds = [c for cd in cond for c in cd[1] if isinstance(c, str) and c.startswith("dmntk_feel::values::Value::") and cd[2] is True]
+        kind = None
+        for k in ("List", "Context"):
+            if sum(1 for c in kinds if c.endswith("::" + k)) >= 2:
+                kind = k
+        if kind is None:
+            continue
+        seen.add(kind)
+        ok = False
+        for cd in cond:
+            t = cd[0]
+            if isinstance(t, tuple) and t and t[0] == "bin" and t[1] in ("==", "!=") and cd[2] == (t[1] == "=="):
+                a, b = repr(t[2]), repr(t[3])
+                if "len" in a and "len" in b and (("('arg', 0)" in a and "('arg', 1)" in b) or ("('arg', 1)" in a and "('arg', 0)" in b)):
+                    ok = True
+        key = "size-test:%s" % kind
+        if ok:
+            rep.ok(rid, key, "Some(true) at line %s is reached only after len(lhs) == len(rhs)" % line)
+        else:
+            rep.violation(rid, key, "eval_ternary_equality answers Some(true) for two %ss at line %s on a path that never compared their sizes: a %s that is a strict part of the other "
+                          "compares equal in one direction only (a = b is not b = a)" % (kind.lower(), line, kind.lower()), "%s:%s" % (h["file"], line))
+    for k in ("List", "Context"):
+        if k not in seen:
+            rep.violation(rid, "size-test:%s" % k, "no path answering Some(true) for two %ss was found in eval_ternary_equality (shape not recognised)" % k.lower(), "%s:%s" % (h["file"], h["line"]))
+
+
+def number_order_rule(F, rep):
+    """R09.8: exactly one of a < b, a = b, a > b on numbers requires that `=` and the ordering operators consult the same numeric comparison:
+    both PartialEq::eq and PartialOrd::partial_cmp of FeelNumber must be hand-written over decQuadCompare(self, rhs) (a derived, representation-wise
+    equality makes 1.0 and 1.00 neither less, equal nor greater)."""
+    from props import c02
+    rid = rep.rule("R09.8", "number equality and number ordering use the same numeric comparison (decQuadCompare on both operands in order)")
+    W = c02.WrapperSem(F, c02.rust_const_values(F))
+    for op in ("<%s as core::cmp::PartialEq>::eq", "<%s as core::cmp::PartialOrd>::partial_cmp"):
+        n = op % c02.NUM
+        cands = [k for k in F.hir if k == n or re.sub(r"<dmntk_feel_number::number::FeelNumber>", "", k) == n]
+        key = "number:%s" % op.split("::")[-1]
+        if not cands:
+            rep.violation(rid, key, "%s is not implemented by hand (derived or missing): equality would compare representations, not values" % n, "feel-number/src/number.rs")
+            continue
+        h = F.hir[cands[0]]
+        ps = [p for p in c02.prims_in(c02.method_value(F, W, h)) if p[1] == "decQuadCompare"]
+        got = [sorted(c02.leaf_names(x)) for x in ps[0][2]] if ps else None
+        if got == [["self"], ["rhs"]]:
+            rep.ok(rid, key, "decQuadCompare(self, rhs)")
+        else:
+            rep.violation(rid, key, "%s does not compare through decQuadCompare(self, rhs) (found %s)" % (cands[0], got), "%s:%s" % (h["file"], h["line"]))
